@@ -152,3 +152,26 @@ Theorem C06_msgpack_to_msgpack_idempotent_for_every_input :
     mm_ok (transcode_reader utf8_valid o) = true /\ mm_output (transcode_reader utf8_valid o) = o /\
     mm_ok (transcode_slice utf8_valid o) = true /\ mm_output (transcode_slice utf8_valid o) = o.
 Proof. exact msgpack_to_msgpack_idempotent. Qed.
+
+(* The formal record of the two known findings on 32-bit floats
+   (theories/JsonFloat32Model.v: serde_json's serialize_f32 / ryu's format32,
+   diffed against the implementation by the RF correspondence).  On the models,
+   the JSON text written for the witness values is translated by JSON -> JSON to
+   another text ([respelled]: the same number, another spelling), because
+   the reader reads every number as a binary64 and the writer then lays it out by
+   format64's rules (positional notation for 1e-5 <= |x| < 1e16) instead of
+   format32's (1e-6 <= |x| < 1e13). *)
+From XtModel Require Import JsonFloat32Model JsonFloat32Proofs.
+
+Theorem C06_f32_small_magnitude_known_class_witness :
+  respelled (json_f32 3066414760 ++ [10%N]) = true.       (* -5.894184e-6, bits b6c5c6a8 *)
+Proof. exact f32_small_magnitude_witness. Qed.
+
+Theorem C06_f32_large_magnitude_known_class_witness :
+  respelled (json_f32 1454761505 ++ [10%N]) = true.       (* 1e14, bits 56b5e621 *)
+Proof. exact f32_large_magnitude_witness. Qed.
+
+(* between the two decades the two printers agree (0.1, 1.0, 1e10, 16777216) *)
+Theorem C06_f32_between_the_decades_is_a_fixed_point :
+  forallb (fun b => reproduced (json_f32 b ++ [10%N])) [1036831949; 1065353216; 1343554297; 1266679808]%N = true.
+Proof. exact f32_fixed_points_between. Qed.
